@@ -48,7 +48,7 @@ impl TOp {
             TOp::RemoveRangeAll => "remove_range(..)".into(),
             TOp::Get { k } => format!("get {}", kn(k)),
             TOp::GetSize { k } => format!("get_size {}", kn(k)),
-            TOp::GetRange { k } => format!("get_range {} 0..2", kn(k)),
+            TOp::GetRange { k } => format!("get_range {} 0..1000", kn(k)),
             TOp::GetReader { k } => format!("get_reader {} + drain", kn(k)),
             TOp::Iterate => "iterate".into(),
             TOp::Checkpoint => "checkpoint".into(),
@@ -159,7 +159,7 @@ fn exec_op(cas: &Cas<K>, stats: &Option<Arc<OrphanStats<K>>>, qdir: &Path, op: T
         TOp::RemoveRangeAll => cas.remove_range::<std::ops::RangeFull>(..).map(Res::Count).unwrap_or_else(e),
         TOp::Get { k } => cas.get(&key(k)).map(|o| Res::Val(o.map(|b| b.to_vec()))).unwrap_or_else(e),
         TOp::GetSize { k } => cas.get_size(&key(k)).map(Res::Size).unwrap_or_else(e),
-        TOp::GetRange { k } => cas.get_range(&key(k), 0, 2).map(|o| Res::Val(o.map(|b| b.to_vec()))).unwrap_or_else(e),
+        TOp::GetRange { k } => cas.get_range(&key(k), 0, 1000).map(|o| Res::Val(o.map(|b| b.to_vec()))).unwrap_or_else(e),
         TOp::GetReader { .. } => unreachable!(),
         TOp::Iterate => {
             let st = cas.read_index_state();
@@ -241,7 +241,7 @@ fn apply_event(map: &mut BTreeMap<String, Vec<u8>>, pending_removals: &mut BTree
         (TOp::Abort { .. }, _) | (TOp::Checkpoint, _) | (TOp::DeleteOrphans, _) | (TOp::Quarantine, _) | (TOp::DeleteOrphan, _) => true,
         (TOp::Get { k }, _) | (TOp::GetReader { k }, _) => r.res == Res::Val(map.get(&key(k)).cloned()) || matches!(r.res, Res::Err(_)),
         (TOp::GetSize { k }, _) => r.res == Res::Size(map.get(&key(k)).map(|v| v.len() as u64)) || matches!(r.res, Res::Err(_)),
-        (TOp::GetRange { k }, _) => r.res == Res::Val(map.get(&key(k)).map(|v| real::slice(v, 0, 2).to_vec())) || matches!(r.res, Res::Err(_)),
+        (TOp::GetRange { k }, _) => r.res == Res::Val(map.get(&key(k)).map(|v| real::slice(v, 0, 1000).to_vec())) || matches!(r.res, Res::Err(_)),
         (TOp::Iterate, _) => r.res == Res::Keys(map.keys().cloned().collect()),
         (TOp::Remove { k }, 0) => {
             let present = map.contains_key(&key(k));
@@ -627,8 +627,11 @@ pub fn programs(tier: &str) -> Vec<(Program, Option<usize>)> {
                 if a.is_read() && b.is_read() {
                     continue;
                 }
-                // quick tier: get_size / get_range behave like get at this granularity; the empty store only for writer pairs
-                if quick && (matches!(a, TOp::GetSize { .. } | TOp::GetRange { .. }) || matches!(b, TOp::GetSize { .. } | TOp::GetRange { .. })) {
+                // quick tier: get_size is index-only; get_range only against puts (it clamps with the recorded size); the empty store only for writer pairs
+                if quick && (matches!(a, TOp::GetSize { .. }) || matches!(b, TOp::GetSize { .. })) {
+                    continue;
+                }
+                if quick && (matches!(a, TOp::GetRange { .. }) || matches!(b, TOp::GetRange { .. })) && !(matches!(a, TOp::Put { k: 0, .. }) || matches!(b, TOp::Put { k: 0, .. })) {
                     continue;
                 }
                 if quick && init == Init::Empty && (a.is_read() || b.is_read() || matches!(a, TOp::Checkpoint) || matches!(b, TOp::Checkpoint)) {
